@@ -225,6 +225,56 @@ impl Universe {
         v
     }
 
+    /// A bulk commit: `n` substate operations (sets, and deletes of existing keys) spread over the
+    /// partitions whose sort keys are at least two bytes long. None if the universe has no such
+    /// partition. Sizes are a tuning knob correctness must not depend on.
+    pub fn gen_bulk_commit(&self, rng: &mut Rng, nodes: &[Vec<u8>], m: &Model, n: usize) -> Option<Commit> {
+        let wide: Vec<usize> = (0..self.parts.len()).filter(|i| self.sort_lens[*i] >= 2).collect();
+        if wide.is_empty() {
+            return None;
+        }
+        let mut commit = Commit::default();
+        let mut left = n;
+        let mut used: std::collections::BTreeSet<(Vec<u8>, u8)> = Default::default();
+        while left > 0 {
+            let node = rng.pick(nodes).clone();
+            let pix = *rng.pick(&wide);
+            let part = self.parts[pix];
+            if !used.insert((node.clone(), part)) {
+                if used.len() >= nodes.len() * wide.len() {
+                    break;
+                }
+                continue;
+            }
+            let slen = self.sort_lens[pix];
+            let take = if rng.chance(1, 2) { left } else { rng.range(1, left as u64) as usize };
+            let mut seen: std::collections::BTreeSet<Vec<u8>> = Default::default();
+            let mut sets = vec![];
+            // deletes of existing keys first
+            for (k, _) in m.range((node.clone(), part, vec![])..).take_while(|(k, _)| k.0 == node && k.1 == part) {
+                if sets.len() < take && rng.chance(1, 3) && seen.insert(k.2.clone()) {
+                    sets.push((Hex(k.2.clone()), None));
+                }
+            }
+            let mut guard = 0;
+            while sets.len() < take && guard < take * 4 {
+                guard += 1;
+                let k = rng.bytes(slen);
+                if seen.insert(k.clone()) {
+                    sets.push((Hex(k), Some(Hex(vec![rng.next_u64() as u8]))));
+                }
+            }
+            left = left.saturating_sub(sets.len().max(1));
+            let pu = PartUpd { part, reset: false, sets };
+            if let Some(nu) = commit.nodes.iter_mut().find(|x| x.node.0 == node) {
+                nu.parts.push(pu);
+            } else {
+                commit.nodes.push(NodeUpd { node: Hex(node), parts: vec![pu] });
+            }
+        }
+        Some(commit)
+    }
+
     /// Generates a commit against the model `m` (used only to bias towards existing keys and to
     /// keep deletes on existing keys when `delete_absent` is false).
     pub fn gen_commit(&self, rng: &mut Rng, nodes: &[Vec<u8>], m: &Model, delete_absent: bool) -> Commit {
